@@ -19,6 +19,8 @@ type BlockSpec struct {
 	Byz    []int         // indexes into World.Vals reported as byzantine (duplicate vote evidence)
 	// NoCheck: deliver the transactions without sending them through CheckTx first
 	NoCheck bool
+	// MayFail: the transactions of this prefix block are EXPECTED to be refused (RunScenario does not insist)
+	MayFail bool
 }
 
 // Scenario is a scripted history leading to a state in which Target (a transaction of kind Kind)
@@ -166,6 +168,9 @@ func RunScenario(sc *Scenario) (*Run, TxRes, TxRes, error) {
 			res, err := x.Block(b)
 			if err != nil {
 				return x, TxRes{}, TxRes{}, fmt.Errorf("prefix block %d: %v", i+1, err)
+			}
+			if b.MayFail {
+				continue
 			}
 			for j, t := range res.Txs {
 				if t.Code != 0 {
